@@ -29,7 +29,7 @@ Vias(k) == IF Free THEN {"params_apply_set", "params_apply_json"}
            ELSE IF k = 1 THEN {"params_apply_set"} ELSE {"params_apply_json"}
 
 \* With Prelude the history starts with  create PA, fill PA with set k1, create PS, fill PS
-\* with set k2  (4 initial states; the replay executes these calls like all others), so that
+\* with set k2  (2 initial states, 4 with Free; the replay executes these calls like all others), so that
 \* the MaxLen calls that follow all work with non-default parameters.
 PreludeHist(k1, k2) ==
     << Call("params_create", "PA", "", 0, 0), Call(CHOOSE f \in Vias(k1) : TRUE, "PA", "", 0, k1),
@@ -37,7 +37,7 @@ PreludeHist(k1, k2) ==
 PL == IF Prelude THEN 4 ELSE 0
 
 Init == IF Prelude
-        THEN \E k1 \in ParamSets, k2 \in ParamSets :
+        THEN \E k1 \in ParamSets : \E k2 \in (IF Free THEN ParamSets ELSE {k1}) :
                 /\ hs = [s \in Slots |-> IF s \in PSlots THEN "live" ELSE "absent"]
                 /\ pm = [p \in PSlots |-> SetMap(p, IF p = "PA" THEN k1 ELSE k2)]
                 /\ ob = [o \in OSlots |-> NoObj]
